@@ -85,7 +85,8 @@ pub fn ident(id: &str) -> RcDoc<'_> {
 
 pub fn quote_ident(id: &str) -> RcDoc<'_> {
     str("'")
-        .append(format!("{}", id.escape_debug()))
+        // NUL as `\u{0}`: `\0` followed by a digit is an octal escape, which strict mode rejects
+        .append(crate::pretty::candid::escape_text(id))
         .append("'")
         .append(RcDoc::space())
 }
